@@ -32,7 +32,17 @@ def pop1(sk, *xs):
     offered = []
     k = 0
     present = [i for i in range(na) if av[i] != 0]
-    for c, (ref, pa) in z << a:
+    pop = z << a
+    if sk.get("twice"):
+        # the populate object is traversed twice: a dry pass whose body touches nothing, then the writing pass
+        n0 = 0
+        for c, (ref, pa) in pop:
+            n0 += 1
+        if n0 != len(present):
+            return fail("dry pass over z << a offered %d coordinates, a presents %d" % (n0, len(present)))
+        if wf(z, 1) < 0 or not mirror(t):
+            return fail("z not well-formed after a dry pass")
+    for c, (ref, pa) in pop:
         if k >= len(present):
             return fail("more coordinates offered than a presents")
         i = present[k]
@@ -96,8 +106,13 @@ def pop1(sk, *xs):
     return True
 
 
-def _mk1(nz, na, sel=None):
+def _mk1(nz, na, sel=None, twice=False):
     z, a = names("z", nz), names("a", na)
+    if twice:
+        sel_ = names("s", na)
+        ps = z + names("zv", nz) + a + names("av", na) + sel_ + names("w", na)
+        pre = chain_pre(z) + chain_pre(a) + ["0 <= %s <= 2" % x for x in sel_]
+        return Ob("pop1/%dx%d/twice" % (nz, na), "pop1", dict(nz=nz, na=na, twice=True), ps, pre)
     if sel is not None:
         ps = z + names("zv", nz) + a + names("av", na) + names("w", na)
         return Ob("pop1/%dx%d/sel%s" % (nz, na, "".join(map(str, sel))), "pop1", dict(nz=nz, na=na, sel=list(sel)), ps, chain_pre(z) + chain_pre(a))
@@ -283,12 +298,16 @@ def pop_u(sk, lo, span, *xs):
 
 
 def pop_u2(sk, *xs):
-    """2-level source whose upper rank is declared 'U': every coordinate of the shape is offered (absent ones as empty sub-fibers);
-    the source tree and its tensor's rank lists are never modified; z ends up with a's content"""
+    """2-level source whose upper rank (fmts "UC") or both ranks ("UU") are declared 'U': every coordinate of the shape is offered (absent ones
+    as empty sub-fibers / default values), also by a source fiber that stores nothing; the source tree and its tensor's rank lists are never
+    modified; z ends up with a's content"""
     tree, S = sk["tree"], sk["S"]
+    fm = sk.get("fmts", "UC")
     af, pos, _ = build_tree(tree, xs)
     ta = Tensor.fromFiber(["M", "K"], af, shape=[S, S])
     ta.setFormat("M", "U")
+    if fm == "UU":
+        ta.setFormat("K", "U")
     a = ta.getRoot()
     sa = raw(a)
     ra = [list(r.fibers) for r in ta.ranks]
@@ -296,8 +315,12 @@ def pop_u2(sk, *xs):
     seen = []
     for m, (z_k, a_k) in tz.getRoot() << a:
         seen.append(m)
+        inner = []
         for k, (z_ref, a_val) in z_k << a_k:
+            inner.append(k)
             z_ref += a_val
+        if fm == "UU" and inner != list(range(S)):
+            return fail("a source fiber of a 'U' rank (row %r, %d stored elements) offered %r, not its whole shape" % (m, len(a_k.coords), inner))
         if not mirror(tz):
             return False
     if seen != list(range(S)):
@@ -321,6 +344,8 @@ def obligations(tier):
         ps = names("a", tree_params(tree))
         pre, _, cn = tree_pre(tree, ps)
         obs.append(Ob("pop_u2/%s" % str(tree).replace(" ", ""), "pop_u2", dict(tree=tree, S=S), ps, pre + bound_pre(cn, 0, S)))
+        obs.append(Ob("pop_u2/UU/%s" % str(tree).replace(" ", ""), "pop_u2", dict(tree=tree, S=S, fmts="UU"), ps, pre + bound_pre(cn, 0, S)))
+    obs.append(Ob("pop_u2/UU/[]", "pop_u2", dict(tree=[], S=2, fmts="UU"), [], []))
     for nz in range(N + 1):
         for na in range(N + 1):
             if na >= 2 and nz >= 2:
@@ -328,6 +353,8 @@ def obligations(tier):
                     obs.append(_mk1(nz, na, sel))
             else:
                 obs.append(_mk1(nz, na))
+    for nz, na in ([(0, 1), (1, 1), (1, 2)] if q else [(0, 1), (1, 1), (1, 2), (2, 1), (2, 2)]):
+        obs.append(_mk1(nz, na, twice=True))
     pairs = [([], [1]), ([1], [1]), ([1, 1], [1]), ([1], [1, 1]), ([], [2]), ([1], [2]), ([0], [1])]
     if not q:
         pairs += [([1, 1], [1, 1]), ([2, 1], [1]), ([1], [2, 1]), ([2], [2]), ([[1]], [[1]]), ([], [[1]]), ([[1]], [[1, 1]])]
